@@ -23,7 +23,7 @@ Print Assumptions C13_contiguous_ranges_blocks.
    wire_inputs is immaterial) *)
 Theorem C13_blocks_disjoint : forall (sig : Type) (ws : list (option sig)),
   NoDup (contiguous_ranges ws) /\ NoDup (flat_map range_to_indices (contiguous_ranges ws)).
-Proof. intros; split; [apply cr_nodup | apply cr_indices_nodup]. Qed.
+Proof. exact blocks_disjoint_lemma. Qed.
 Print Assumptions C13_blocks_disjoint.
 
 (* key lemma: the blocks of the rotated ring are the rotated blocks, as a SET (their order in the
@@ -40,7 +40,7 @@ Theorem C13_block_arguments_rotation : forall (sig : Type) (ws : list (option si
   wf ws -> s <= NW -> f < NW -> 1 <= l <= NW ->
   block_sigs (rotw s ws) (rot_range s (f, l)) = block_sigs ws (f, l) /\
   range_to_indices (rot_range s (f, l)) = map (fun i => (i + s) mod NW) (range_to_indices (f, l)).
-Proof. intros; split; [now apply block_sigs_rot | now apply rti_rot]. Qed.
+Proof. exact block_arguments_rotation_lemma. Qed.
 Print Assumptions C13_block_arguments_rotation.
 
 (* the unwrap()s of y_matrix cannot fail on a block, and the index list has range_to_len entries *)
@@ -48,7 +48,7 @@ Theorem C13_block_signals_present : forall (sig : Type) (ws : list (option sig))
   block ws f l ->
   length (block_sigs ws (f, l)) = length (range_to_indices (f, l)) /\
   length (range_to_indices (f, l)) = N.to_nat (range_to_len (f, l)).
-Proof. intros; split; [now apply block_sigs_all_some | apply rti_length]. Qed.
+Proof. exact block_signals_present_lemma. Qed.
 Print Assumptions C13_block_signals_present.
 
 (* wire_inputs[first..first + 8] of lib.rs:441 stays inside the 256 slots *)
@@ -157,6 +157,10 @@ Theorem C13_instance_mirror : forall D ws pads,
   Toy.av D ws (mirror pads) = map (neg_z Z.opp) (Toy.av D ws pads).
 Proof. exact Toy.toy_mirror. Qed.
 Print Assumptions C13_instance_mirror.
+
+(* the premise NoPadTie holds on a non-trivial concrete value (the F6 column with a single peak) *)
+Example C13_nonvacuous_no_tie : NoPadTie 0%Z Toy.apos Toy.agt Toy.zf Toy.P (Toy.mkpads (Toy.peak 11 100)).
+Proof. exact toy_no_tie. Qed.
 
 (* non-vacuity on concrete values: the F6 event is a partial ring of the right shape with two avalanches;
    its blocks and their rotation by one pad column *)
